@@ -147,10 +147,13 @@ Proof.
   - exists (mkRV None None None None), [].
     unfold views, meta_cond, chan_keys in *. cbn [rv_meta rv_state rv_smeta rv_stream new_chan ch_epoch ch_top ch_state ch_items].
     cbn [chan_rel In] in Hrel. cbn [hview sview].
-    split; [split; [apply Hrel; auto 10|]; split; [apply Hrel; auto 10|]; split; [apply Hrel; auto 10|]; split; apply Hrel; auto 10|].
+    assert (Hk : forall k, In k [k_stream ch; k_meta ch; k_state ch; k_expire ch; k_smeta ch] -> getk rs k = None) by exact Hrel.
+    cbn [In] in Hk.
+    split; [split; [apply Hk; auto 10|]; split; [apply Hk; auto 10|]; split; [apply Hk; auto 10|]; split; apply Hk; auto 10|].
     split; [split; reflexivity|]. split; [reflexivity|]. split; [left; split; reflexivity|]. split; [reflexivity|].
     split; [reflexivity|]. split; [intros x []|].
-    split; [unfold nonce_ok in Hn; apply negb_true_iff in Hn; exact Hn|]. split; [lia|].
+    unfold chan_inv, new_chan. cbn [ch_epoch ch_top ch_items ch_state].
+    split; [unfold nonce_ok in Hn; apply negb_true_iff in Hn; exact Hn|]. split; [apply N.le_0_l|].
     split; [apply contigT_nil; reflexivity | intros kv []].
 Qed.
 
@@ -175,6 +178,9 @@ Proof.
   - apply String.eqb_eq in E. subst. apply sfind_sput_same.
   - apply String.eqb_neq in E. apply sfind_sput_other. assumption.
 Qed.
+
+Lemma skipn_fit {A} (l : list A) n : (List.length l <= n)%nat -> skipn (List.length l - n) l = l.
+Proof. intros H. replace (List.length l - n)%nat with O by lia. reflexivity. Qed.
 
 Definition state_after (key : string) (e : mentry) (state : list (string * mentry)) : list (string * mentry) :=
   if String.eqb key "" then state else sput key e state.
@@ -212,11 +218,470 @@ Proof.
   rewrite Hmodes.
   assert (Hcas : (if negb (String.eqb key "") then cas_check (snd (chan_pos c0)) None (sfind key (ch_state c0)) else None) = None).
   { destruct (negb (String.eqb key "")); reflexivity. }
-  rewrite Hcas. unfold stream_add. cbn [ch_items ch_top ch_epoch ch_state fst snd].
-  replace (List.length (ch_items c0 ++ [((ch_top c0 + 1)%N, key, mp_data o, false)]) - Z.to_nat (mc_size cf))%nat with O
-    by (rewrite app_length; cbn [List.length]; lia).
-  cbn [skipn]. unfold state_after.
+  rewrite Hcas. unfold stream_add. cbv beta iota zeta. cbn [ch_items ch_top ch_epoch ch_state fst snd].
+  rewrite !skipn_fit by (rewrite app_length; cbn [List.length]; lia).
+  unfold state_after.
   destruct (String.eqb key "") eqn:Ek; cbn [negb].
   - eexists. exists 0%N, "". split; [reflexivity|]. intros ch'. apply Hm1.
   - cbn [N.eqb]. destruct (sfind key (ch_state c0)) as [e|]; eexists; eexists; eexists; (split; [reflexivity|]); intros ch'; apply Hm1.
+Qed.
+
+(* ================= steps ================= *)
+Definition step_goal U n cf rs m o : Prop :=
+  exists rs' m' res, rm_step map_shallow cf rs o = (rs', res) /\ mm_step cf m o = (m', res) /\ R U (n + 1) rs' m'.
+
+Lemma cfg_ok_fields cf : cfg_ok cf = true ->
+  exists size sttl, cf = mkMC 3 0 size sttl 0 false /\ (0 < size < 2147483648)%Z /\ C18Stream.small sttl = true.
+Proof.
+  destruct cf as [mode kttl size sttl mttl ord]. unfold cfg_ok. cbn [mc_mode mc_keyttl mc_size mc_sttl mc_mttl mc_ordered].
+  intros H. repeat (apply andb_true_iff in H as [H ?]).
+  apply N.eqb_eq in H. apply Z.eqb_eq in H5, H4. apply negb_true_iff in H3. apply Z.ltb_lt in H2, H1.
+  subst. exists size, sttl. split; [reflexivity|]. split; [lia | assumption].
+Qed.
+
+Lemma frame_clear ks st : frame ks st (clear_outbox st).
+Proof. split; [intros; apply getk_clear_outbox | reflexivity]. Qed.
+
+Lemma R_clear U n rs m : R U n rs m -> R U n (clear_outbox rs) m.
+Proof.
+  intros HR. constructor; [|apply (R_inv _ _ _ _ HR)].
+  intros ch Hin. apply (chan_rel_frame rs); [intros; apply getk_clear_outbox | apply (R_chan _ _ _ _ HR); assumption].
+Qed.
+
+Lemma parse_add_ok top epoch : (top < 18446744073709551616)%N ->
+  parse_add_result (RArr [RInt (Z.of_N top); RBulk epoch; RBulk ""]) = MUpd top epoch false "" None.
+Proof.
+  intros H. unfold parse_add_result. cbn [as_arr List.length Nat.ltb Nat.leb nth as_u64 to_str].
+  rewrite Z.mod_small by lia. rewrite N2Z.id. reflexivity.
+Qed.
+
+Lemma in_sput {A} k (v : A) l kv : In kv (sput k v l) -> kv = (k, v) \/ In kv l.
+Proof.
+  induction l as [|[k' v'] l IH]; cbn [sput].
+  - intros [<-|[]]. left. reflexivity.
+  - destruct (String.eqb k k'); cbn [In].
+    + intros [<-|H]; [left; reflexivity | right; right; assumption].
+    + intros [<-|H]; [right; left; reflexivity|]. destruct (IH H); [left; assumption | right; right; assumption].
+Qed.
+
+Lemma sput_nonempty {A} k (v : A) l : sput k v l <> [].
+Proof. destruct l as [|[k' v'] l]; cbn [sput]; [discriminate|]. destruct (String.eqb k k'); discriminate. Qed.
+
+Lemma state_view_some epoch state : state <> [] -> state_view epoch state = Some (map (enc_s epoch) state).
+Proof. destruct state; [congruence | reflexivity]. Qed.
+
+Lemma strm_view_some epoch g top : g <> [] -> strm_view epoch g top = Some (map (genc epoch) g, (top, 0%N)).
+Proof. destruct g; [congruence | reflexivity]. Qed.
+
+Lemma g_inv_snoc g top (p : tpub) sc :
+  g_inv g top -> off_of p = (top + 1)%N -> (0 <= sc)%Z -> g_inv (g ++ [(p, sc)])%list (top + 1).
+Proof.
+  intros Hg Hp Hs x Hin. apply in_app_or in Hin as [Hin|[<-|[]]].
+  - destruct (Hg x Hin). split; [lia | assumption].
+  - unfold g_off. cbn [fst snd]. rewrite Hp. split; [lia | assumption].
+Qed.
+
+(* the Redis-side record of a channel after an accepted write *)
+Lemma chan_rel_after rs' ch epoch top g mh' sth smh' items state p sc size :
+  views rs' ch (mkRV (Some mh') sth smh'
+                     (Some (trim_approx (map (genc epoch) g ++ [sentry_of (top + 1) epoch (pb (snd (fst (fst p))) (snd (fst p)) (snd p) sc)])%list size,
+                            ((top + 1)%N, 0%N)))) ->
+  hash_ok mh' epoch (top + 1) 0 "" ->
+  sth = state_view epoch state -> smeta_cond sth smh' epoch ->
+  map fst g = items -> g_inv g top -> off_of p = (top + 1)%N -> (0 <= sc)%Z ->
+  (Z.of_nat (List.length g) < size)%Z ->
+  chan_rel rs' ch (Some (mkMCh (top + 1) epoch (items ++ [p])%list state)).
+Proof.
+  intros (Vm & Vs & Vsm & Vst & Ve) Hh Est Hsm Hg Hgi Hp Hsc Hsz. cbn [rv_meta rv_state rv_smeta rv_stream] in *.
+  cbn [chan_rel ch_epoch ch_top ch_items ch_state].
+  exists mh', (g ++ [(p, sc)])%list, smh'.
+  split; [assumption|]. split; [assumption|].
+  split; [rewrite map_app; cbn [map fst]; f_equal; exact Hg|].
+  split; [apply g_inv_snoc; assumption|].
+  split.
+  { rewrite strm_view_some by (destruct g; discriminate). rewrite map_app. cbn [map].
+    rewrite trim_approx_id in Vst by (rewrite app_length, map_length; cbn [List.length]; lia).
+    replace (genc epoch (p, sc)) with (sentry_of (top + 1) epoch (pb (snd (fst (fst p))) (snd (fst p)) (snd p) sc)); [exact Vst|].
+    unfold genc, sentry_of, g_off. cbn [fst snd]. rewrite Hp. reflexivity. }
+  split; [rewrite <- Est; assumption|]. split; [assumption|]. split; [rewrite <- Est; assumption | assumption].
+Qed.
+
+Lemma zdec_nonneg z : (0 <= z)%Z -> zdec z = dec (Z.to_N z).
+Proof. intros H. rewrite <- zdec_of_N. rewrite Z2N.id by assumption. reflexivity. Qed.
+
+Lemma step_publish U n cf rs m ch key po nonce now_ :
+  cfg_ok cf = true -> keys_ok U -> In ch U -> R U n rs m -> (Z.of_N n < mc_size cf)%Z ->
+  popts_ok po = true -> nonce_ok nonce = true ->
+  step_goal U n cf rs m (MPublish ch key po nonce now_).
+Proof.
+  intros Hcf HK Hin HR Hn Hpo Hno.
+  destruct (cfg_ok_fields cf Hcf) as (size & sttl & -> & Hsize & Hsttl). cbn [mc_size] in Hn.
+  pose proof (R_clear _ _ _ _ HR) as HR0. set (rs0 := clear_outbox rs) in *.
+  destruct (pre_state U n rs0 m ch nonce HR0 Hin Hno) as (v & g & Hviews & Hmeta & Est & Hsmc & Estr & Hg & Hgi & Hinv).
+  set (c0 := c0_of m ch nonce) in *.
+  destruct Hinv as (Hep & Htop & Hcontig & Hents).
+  pose proof (contigT_length _ _ _ Hcontig) as Hlen.
+  assert (Hglen : List.length g = List.length (ch_items c0)) by (rewrite <- Hg; rewrite map_length; reflexivity).
+  destruct (hub_add_core (mkMC 3 0 size sttl 0 false) m ch key po nonce eq_refl Hpo) as (m' & ver & vep & Hadd & Hch).
+  { fold c0. cbn [mc_size]. lia. }
+  fold c0 in Hadd, Hch.
+  pose proof Hpo as Hpo'. unfold popts_ok in Hpo'.
+  apply andb_true_iff in Hpo' as [Hpo' Hsc]. apply andb_true_iff in Hpo' as [Hpo' Hexp]. apply andb_true_iff in Hpo' as [Hpo' Hmode].
+  apply andb_true_iff in Hpo' as [Hidem Hver]. apply N.eqb_eq in Hver. apply String.eqb_eq in Hmode, Hidem. apply Z.leb_le in Hsc.
+  destruct (mp_exp po) eqn:Eexp; [discriminate|].
+  assert (Htb : (ch_top c0 + 1 < BOUND)%N) by (unfold C18Stream.BOUND; lia).
+  assert (Hszb : (Z.to_N size < 9223372036854775808)%N) by lia.
+  pose proof (stream_cond_of v _ g _ _ Estr Hg Hcontig) as Hscond.
+  pose proof (wipe_cond_of v _ Hsmc) as Hwc.
+  (* memory side *)
+  assert (Hmem : mm_step (mkMC 3 0 size sttl 0 false) m (MPublish ch key po nonce now_)
+                 = (m', MUpd (ch_top c0 + 1) (ch_epoch c0) false "" None)).
+  { cbn [mm_step]. unfold mm_publish. cbn [is_ephemeral mc_mode N.eqb Pos.eqb andb]. rewrite Hidem. cbn [String.eqb].
+    rewrite Hadd. unfold idem_save. reflexivity. }
+  unfold step_goal. unfold rm_step. fold rs0. unfold rm_publish.
+  cbn [is_ephemeral mc_mode N.eqb Pos.eqb andb]. cbv iota.
+  unfold publish_keys, publish_args. cbn [is_ephemeral has_stream mc_mode mc_keyttl mc_size mc_sttl mc_mttl mc_ordered N.eqb Pos.eqb].
+  rewrite Hidem, Hver, Hmode, Eexp. cbn [String.eqb andb negb Z.ltb Z.compare N.ltb N.compare orb]. unfold idem_expire. cbn [String.eqb].
+  change (millis 0) with "0". rewrite (zdec_nonneg size) by lia. unfold utoa.
+  cbn [ms_add map_shallow].
+  destruct key as [|kc key].
+  - (* unkeyed *)
+    cbn [String.eqb negb andb]. rewrite core_unkeyed_eq.
+    destruct (core_unkeyed_spec rs0 ch (pb "" (mp_data po) false (mp_score po)) (Z.to_N size) sttl nonce now_ v
+                (ch_epoch c0) (ch_top c0) (map (genc (ch_epoch c0)) g) Hviews Hmeta Hscond Htb Hszb Hsttl)
+      as (st' & mh' & Hrun & Hv' & Hh' & Hfr).
+    rewrite Hrun. rewrite parse_add_ok by (unfold C18Stream.BOUND in Htb; lia).
+    eexists. exists m'. eexists. split; [reflexivity|]. split; [exact Hmem|].
+    eapply (R_update U n (n + 1) rs0 m _ m' ch _ HK Hin HR0); [lia | | exact Hch | |].
+    + eapply frame_trans; [exact Hfr | apply frame_clear].
+    + apply (chan_rel_frame st'); [intros; apply getk_clear_outbox|].
+      unfold state_after. cbn [String.eqb].
+      apply (chan_rel_after st' ch (ch_epoch c0) (ch_top c0) g mh' (rv_state v) (rv_smeta v) (ch_items c0) (ch_state c0)
+               ((ch_top c0 + 1)%N, "", mp_data po, false) (mp_score po) (Z.of_N (Z.to_N size)));
+        try assumption; try reflexivity. lia.
+    + intros c' E. injection E as <-. unfold chan_inv. cbn [ch_epoch ch_top ch_items ch_state].
+      split; [assumption|]. split; [lia|]. split; [apply contigT_snoc; [assumption | reflexivity]|].
+      unfold state_after. cbn [String.eqb]. assumption.
+  - (* keyed *)
+    cbn [String.eqb negb andb]. rewrite core_keyed_eq.
+    destruct (core_keyed_spec rs0 ch (String kc key) (pb (String kc key) (mp_data po) false (mp_score po)) (Z.to_N size) sttl nonce now_
+                (mp_delta po) v (ch_epoch c0) (ch_top c0) (map (genc (ch_epoch c0)) g) Hviews Hmeta Hscond Hwc Htb Hszb Hsttl)
+      as (st' & mh' & hs' & Hrun & Hv' & Hh' & Hep' & Hfr).
+    rewrite Hrun. rewrite parse_add_ok by (unfold C18Stream.BOUND in Htb; lia).
+    eexists. exists m'. eexists. split; [reflexivity|]. split; [exact Hmem|].
+    set (e' := mkME (ch_top c0 + 1) (mp_data po) (mp_score po) ver vep).
+    eapply (R_update U n (n + 1) rs0 m _ m' ch _ HK Hin HR0); [lia | | exact Hch | |].
+    + eapply frame_trans; [exact Hfr | apply frame_clear].
+    + apply (chan_rel_frame st'); [intros; apply getk_clear_outbox|].
+      unfold state_after. cbn [String.eqb].
+      apply (chan_rel_after st' ch (ch_epoch c0) (ch_top c0) g mh'
+               (Some (sput (String kc key) (state_value (Z.of_N (ch_top c0 + 1)) (ch_epoch c0) (pb (String kc key) (mp_data po) false (mp_score po)))
+                           (hash_or_empty (rv_state v)))) (Some hs') (ch_items c0) (sput (String kc key) e' (ch_state c0))
+               ((ch_top c0 + 1)%N, String kc key, mp_data po, false) (mp_score po) (Z.of_N (Z.to_N size)));
+        try assumption; try reflexivity; try lia.
+      * rewrite state_view_some by apply sput_nonempty. rewrite Est, state_view_hash.
+        rewrite state_value_small by (unfold C18Stream.BOUND in Htb; exact Htb).
+        rewrite <- sput_enc_s. reflexivity.
+      * right. exists hs'. split; [reflexivity | assumption].
+    + intros c' E. injection E as <-. unfold chan_inv. cbn [ch_epoch ch_top ch_items ch_state].
+      split; [assumption|]. split; [lia|]. split; [apply contigT_snoc; [assumption | reflexivity]|].
+      unfold state_after. cbn [String.eqb]. intros kv Hkv. apply in_sput in Hkv as [->|Hkv]; [|apply Hents; assumption].
+      cbn [snd]. unfold entry_ok, e'. cbn [me_off me_score]. unfold C18Stream.BOUND in Htb. split; [exact Htb | assumption].
+Qed.
+
+Lemma in_sdel {A} k (l : list (string * A)) kv : In kv (sdel k l) -> In kv l.
+Proof.
+  induction l as [|[k' v'] l IH]; cbn [sdel]; [auto|].
+  destruct (String.eqb k k'); cbn [In]; [intros H; right; apply IH; assumption|].
+  intros [<-|H]; [left; reflexivity | right; apply IH; assumption].
+Qed.
+
+Lemma R_mono U n n' rs m : (n <= n')%N -> R U n rs m -> R U n' rs m.
+Proof.
+  intros Hn HR. constructor; [apply (R_chan _ _ _ _ HR)|].
+  intros ch c E. apply (chan_inv_mono n); [assumption | apply (R_inv _ _ _ _ HR ch c E)].
+Qed.
+
+Lemma step_remove U n cf rs m ch key ro nonce now_ c :
+  cfg_ok cf = true -> keys_ok U -> In ch U -> R U n rs m -> (Z.of_N n < mc_size cf)%Z ->
+  ropts_ok ro = true -> key <> "" -> sfind ch (mm_chans m) = Some c ->
+  step_goal U n cf rs m (MRemove ch key ro nonce now_).
+Proof.
+  intros Hcf HK Hin HR Hn Hro Hkey Ec.
+  destruct (cfg_ok_fields cf Hcf) as (size & sttl & -> & Hsize & Hsttl). cbn [mc_size] in Hn.
+  pose proof (R_clear _ _ _ _ HR) as HR0. set (rs0 := clear_outbox rs) in *.
+  pose proof (R_chan _ _ _ _ HR0 ch Hin) as Hrel. rewrite Ec in Hrel.
+  destruct Hrel as (h & g & smh & Vm & Hh & Hg & Hgi & Vst & Vs & Vsm & Hsmc & Ve).
+  destruct (R_inv _ _ _ _ HR0 ch c Ec) as (Hep & Htop & Hcontig & Hents).
+  pose proof (contigT_length _ _ _ Hcontig) as Hlen.
+  assert (Hglen : List.length g = List.length (ch_items c)) by (rewrite <- Hg; rewrite map_length; reflexivity).
+  set (v := mkRV (Some h) (state_view (ch_epoch c) (ch_state c)) smh (strm_view (ch_epoch c) g (ch_top c))).
+  assert (Hviews : views rs0 ch v) by (unfold views, v; cbn [rv_meta rv_state rv_smeta rv_stream]; tauto).
+  unfold ropts_ok in Hro. apply andb_true_iff in Hro as [Hidem Hexp]. apply String.eqb_eq in Hidem.
+  destruct (mr_exp ro) eqn:Eexp; [discriminate|].
+  assert (Htb : (ch_top c + 1 < BOUND)%N) by (unfold C18Stream.BOUND; lia).
+  assert (Hszb : (Z.to_N size < 9223372036854775808)%N) by lia.
+  destruct key as [|kc key]; [congruence|].
+  unfold step_goal. unfold rm_step. fold rs0. unfold rm_remove.
+  cbn [is_ephemeral mc_mode N.eqb Pos.eqb andb]. cbv iota.
+  unfold remove_keys, remove_args. cbn [is_ephemeral has_stream mc_mode mc_keyttl mc_size mc_sttl mc_mttl mc_ordered N.eqb Pos.eqb orb].
+  rewrite Hidem, Eexp. cbn [String.eqb]. unfold idem_expire. cbn [String.eqb].
+  change (millis 0) with "0". rewrite (zdec_nonneg size) by lia. unfold utoa.
+  cbn [ms_add map_shallow]. rewrite core_remove_eq.
+  cbn [mm_step]. unfold mm_remove. cbn [is_ephemeral mc_mode N.eqb Pos.eqb andb]. rewrite Hidem. cbn [String.eqb].
+  unfold hub_remove. rewrite Ec, Eexp. cbn [cas_check].
+  assert (Hf : sfind (String kc key) (hash_or_empty (rv_state v))
+               = match sfind (String kc key) (ch_state c) with Some e => Some (snd (enc_s (ch_epoch c) (String kc key, e))) | None => None end).
+  { unfold v. cbn [rv_state]. rewrite state_view_hash. apply sfind_enc_s. }
+  destruct (sfind (String kc key) (ch_state c)) as [e|] eqn:Ek.
+  - (* the key is there *)
+    assert (Hne : ch_state c <> []) by (intros X; rewrite X in Ek; discriminate).
+    assert (Hsm : exists hs, smh = Some hs /\ sfind "epoch" hs = Some (ch_epoch c)).
+    { destruct Hsmc as [[_ X]|X]; [|exact X]. rewrite state_view_hash in X. destruct (ch_state c); [congruence | discriminate]. }
+    destruct Hsm as (hs & -> & Heps).
+    assert (Hscond : stream_cond v (ch_top c) (map (genc (ch_epoch c)) g)) by (apply (stream_cond_of v _ g _ (ch_items c)); [reflexivity | assumption | assumption]).
+    destruct (core_remove_present rs0 ch (String kc key) (pb (String kc key) "" true 0) (Z.to_N size) sttl nonce now_ v h
+                (map (enc_s (ch_epoch c)) (ch_state c)) hs (ch_epoch c) (ch_top c) (map (genc (ch_epoch c)) g)
+                Hviews eq_refl Hh) as (st' & mh' & hs' & Hrun & Hv' & Hh' & Hep' & Hfr);
+      [unfold v; cbn [rv_state]; apply state_view_some; assumption
+      | rewrite sfind_enc_s, Ek; discriminate | reflexivity | assumption | assumption | assumption | assumption | assumption |].
+    rewrite Hrun. rewrite parse_add_ok by (unfold C18Stream.BOUND in Htb; lia).
+    unfold stream_add. cbv beta iota zeta. cbn [ch_items ch_top ch_epoch ch_state fst snd has_stream mc_mode N.eqb Pos.eqb orb mc_size].
+    rewrite skipn_fit by (rewrite app_length; cbn [List.length]; lia).
+    unfold idem_save. cbn [String.eqb].
+    eexists. eexists. eexists. split; [reflexivity|]. split; [reflexivity|].
+    eapply (R_update U n (n + 1) rs0 m _ _ ch _ HK Hin HR0); [lia | | intros ch'; apply sfind_set_chan | |].
+    + eapply frame_trans; [exact Hfr | apply frame_clear].
+    + apply (chan_rel_frame st'); [intros; apply getk_clear_outbox|].
+      apply (chan_rel_after st' ch (ch_epoch c) (ch_top c) g mh'
+               (match sdel (String kc key) (map (enc_s (ch_epoch c)) (ch_state c)) with [] => None | h' => Some h' end)
+               (Some hs') (ch_items c) (sdel (String kc key) (ch_state c))
+               ((ch_top c + 1)%N, String kc key, "", true) 0%Z (Z.of_N (Z.to_N size)));
+        try assumption; try reflexivity; try lia.
+      * rewrite sdel_enc_s. destruct (sdel (String kc key) (ch_state c)); reflexivity.
+      * right. exists hs'. split; [reflexivity | assumption].
+      * unfold gent. rewrite Z2N.id by lia. lia.
+    + intros c' E. injection E as <-. unfold chan_inv. cbn [ch_epoch ch_top ch_items ch_state].
+      split; [assumption|]. split; [lia|]. split; [apply contigT_snoc; [assumption | reflexivity]|].
+      intros kv Hkv. apply Hents. eapply in_sdel. eassumption.
+  - (* the key is not there *)
+    assert (Hwc : wipe_cond v (ch_epoch c)) by (apply wipe_cond_of; exact Hsmc).
+    rewrite (core_remove_absent rs0 ch (String kc key) _ _ _ nonce now_ v h (ch_epoch c) (ch_top c) Hviews eq_refl Hh Hwc Hf)
+      by (unfold C18Stream.BOUND in *; lia).
+    eexists. eexists. eexists. split; [reflexivity|]. split.
+    + cbn [chan_pos fst snd]. f_equal.
+      unfold parse_add_result. cbn [as_arr List.length Nat.ltb Nat.leb nth as_u64 to_str].
+      unfold C18Stream.BOUND in Htb. rewrite Z.mod_small by lia. rewrite N2Z.id. reflexivity.
+    + apply R_clear. apply (R_mono U n); [lia | exact HR0].
+Qed.
+
+(* ================= reads ================= *)
+Lemma since_okb_sound top since reverse : since_okb top since reverse = true -> since_ok top since reverse.
+Proof.
+  unfold since_okb, since_ok. destruct since as [[so se]|]; [|auto]. destruct reverse.
+  - intros H. apply andb_true_iff in H as [H1 H2]. apply N.leb_le in H1, H2. lia.
+  - intros H. apply N.ltb_lt in H. exact H.
+Qed.
+
+Lemma chan_rel_new rs' ch nonce :
+  hview rs' (k_meta ch) (Some [("e", nonce)]) -> getk rs' (k_stream ch) = None -> getk rs' (k_state ch) = None ->
+  getk rs' (k_smeta ch) = None -> getk rs' (k_expire ch) = None ->
+  chan_rel rs' ch (Some (new_chan nonce)).
+Proof.
+  intros Hm Hs Ht Hsm He. cbn [chan_rel new_chan ch_epoch ch_top ch_items ch_state].
+  exists [("e", nonce)], [], None. split; [assumption|]. split; [apply C18StreamP.hash_ok_new|].
+  split; [reflexivity|]. split; [intros x []|]. split; [exact Hs|]. split; [exact Ht|]. split; [exact Hsm|].
+  split; [left; split; reflexivity | assumption].
+Qed.
+
+Lemma chan_inv_new n nonce : nonce_ok nonce = true -> chan_inv n (new_chan nonce).
+Proof.
+  intros Hn. unfold chan_inv, new_chan. cbn [ch_epoch ch_top ch_items ch_state].
+  split; [unfold nonce_ok in Hn; apply negb_true_iff in Hn; exact Hn|]. split; [apply N.le_0_l|].
+  split; [apply contigT_nil; reflexivity | intros kv []].
+Qed.
+
+Lemma none_keys rs ch : chan_rel rs ch None ->
+  getk rs (k_stream ch) = None /\ getk rs (k_meta ch) = None /\ getk rs (k_state ch) = None /\
+  getk rs (k_expire ch) = None /\ getk rs (k_smeta ch) = None.
+Proof.
+  cbn [chan_rel]. unfold chan_keys. intros H.
+  repeat split; apply H; cbn [In]; auto 10.
+Qed.
+
+Lemma step_read_stream U n cf rs m ch since limit reverse nonce :
+  cfg_ok cf = true -> keys_ok U -> In ch U -> R U n rs m -> (Z.of_N n < mc_size cf)%Z ->
+  nonce_ok nonce = true -> (limit < 2147483648)%Z ->
+  match sfind ch (mm_chans m) with
+  | Some c => since_okb (ch_top c) since reverse = true
+  | None => since = None
+  end ->
+  step_goal U n cf rs m (MReadStream ch since limit reverse nonce nonce).
+Proof.
+  intros Hcf HK Hin HR Hn Hno Hlim Hdom.
+  destruct (cfg_ok_fields cf Hcf) as (size & sttl & -> & Hsize & Hsttl). cbn [mc_size] in Hn.
+  pose proof (R_clear _ _ _ _ HR) as HR0. set (rs0 := clear_outbox rs) in *.
+  pose proof (R_chan _ _ _ _ HR0 ch Hin) as Hrel.
+  unfold step_goal. unfold rm_step. fold rs0. cbn [mm_step].
+  destruct (sfind ch (mm_chans m)) as [c|] eqn:Ec.
+  - destruct Hrel as (h & g & smh & Vm & Hh & Hg & Hgi & Vst & Vs & Vsm & Hsmc & Ve).
+    destruct (R_inv _ _ _ _ HR0 ch c Ec) as (Hep & Htop & Hcontig & Hents).
+    apply since_okb_sound in Hdom.
+    rewrite (rm_read_stream_some (mkMC 3 0 size sttl 0 false) rs0 ch h (ch_epoch c) (ch_top c) g since limit reverse nonce eq_refl Vm Hh Vst Hgi)
+      by (unfold C18Stream.BOUND; first [lia | assumption]).
+    rewrite (mm_read_stream_some m ch c since limit reverse nonce Ec Hcontig Hdom).
+    change (@map gent tpub fst g) with (@map (tpub * Z) tpub fst g). rewrite Hg.
+    eexists. eexists. eexists. split; [reflexivity|]. split; [reflexivity|].
+    apply R_clear. apply (R_mono U n); [lia | exact HR0].
+  - subst since. destruct (none_keys _ _ Hrel) as (Ks & Km & Kt & Ke & Ksm).
+    rewrite (rm_read_stream_none (mkMC 3 0 size sttl 0 false) rs0 ch limit reverse nonce eq_refl Km Hlim).
+    unfold mm_read_stream. rewrite Ec.
+    eexists. eexists. eexists. split; [reflexivity|]. split; [reflexivity|].
+    set (rs1 := setval rs0 (k_meta ch) (VHash [("e", nonce)])).
+    assert (F1 : frame [k_meta ch] rs0 rs1) by apply frame_setval.
+    assert (F2 : frame [k_stream ch] rs1 (delk rs1 (k_stream ch))) by apply frame_delk.
+    assert (F : frame (chan_keys ch) rs0 (clear_outbox (delk rs1 (k_stream ch)))).
+    { eapply frame_trans; [eapply frame_weaken; [|exact F1]; ck|].
+      eapply frame_trans; [eapply frame_weaken; [|exact F2]; ck | apply frame_clear]. }
+    eapply (R_update U n (n + 1) rs0 m _ _ ch _ HK Hin HR0); [lia | exact F | intros ch'; apply sfind_set_chan | |].
+    + apply (chan_rel_frame (delk rs1 (k_stream ch))); [intros; apply getk_clear_outbox|].
+      apply chan_rel_new.
+      * apply (hview_frame _ _ _ _ _ F2); [notin | apply hview_setval].
+      * apply getk_delk_same.
+      * destruct F2 as [F2 _]. destruct F1 as [F1 _]. rewrite F2 by notin. rewrite F1 by notin. exact Kt.
+      * destruct F2 as [F2 _]. destruct F1 as [F1 _]. rewrite F2 by notin. rewrite F1 by notin. exact Ksm.
+      * destruct F2 as [F2 _]. destruct F1 as [F1 _]. rewrite F2 by notin. rewrite F1 by notin. exact Ke.
+    + intros c' E. injection E as <-. apply chan_inv_new. assumption.
+Qed.
+
+Lemma step_read_state U n cf rs m ch rev_ limit key asc nonce :
+  cfg_ok cf = true -> keys_ok U -> In ch U -> R U n rs m -> (Z.of_N n < mc_size cf)%Z ->
+  nonce_ok nonce = true -> (limit < 2147483648)%Z ->
+  match sfind ch (mm_chans m) with
+  | Some c => (negb (String.eqb key "") || negb (limit =? 0)%Z || negb (rev_bad rev_ (ch_epoch c)))%bool = true
+  | None => key = "" /\ rev_ = None
+  end ->
+  step_goal U n cf rs m (MReadState ch rev_ limit key asc nonce nonce).
+Proof.
+  intros Hcf HK Hin HR Hn Hno Hlim Hdom.
+  destruct (cfg_ok_fields cf Hcf) as (size & sttl & -> & Hsize & Hsttl). cbn [mc_size] in Hn.
+  set (cf := mkMC 3 0 size sttl 0 false).
+  pose proof (R_clear _ _ _ _ HR) as HR0. set (rs0 := clear_outbox rs) in *.
+  pose proof (R_chan _ _ _ _ HR0 ch Hin) as Hrel.
+  unfold step_goal. unfold rm_step. fold rs0. cbn [mm_step]. unfold rm_read_state.
+  destruct (sfind ch (mm_chans m)) as [c|] eqn:Ec.
+  - destruct Hrel as (h & g & smh & Vm & Hh & Hg & Hgi & Vst & Vs & Vsm & Hsmc & Ve).
+    destruct (R_inv _ _ _ _ HR0 ch c Ec) as (Hep & Htop & Hcontig & Hents).
+    assert (Htb : (ch_top c < BOUND)%N) by (unfold C18Stream.BOUND; lia).
+    rewrite (mm_read_state_some m ch c rev_ limit key nonce Ec).
+    destruct (negb (String.eqb key "")) eqn:Ek.
+    + (* single key *)
+      rewrite (rm_read_single_some cf rs0 ch key rev_ h (ch_epoch c) (ch_top c) (ch_state c) eq_refl Vm Hh Htb Vs Hep Hents).
+      eexists. eexists. eexists. split; [reflexivity|]. split; [reflexivity|].
+      apply R_clear. apply (R_mono U n); [lia | exact HR0].
+    + destruct (limit =? 0)%Z eqn:El.
+      * (* position only *)
+        cbn [negb orb] in Hdom. apply negb_true_iff in Hdom. rewrite Hdom.
+        rewrite (rm_read_stream_some cf rs0 ch h (ch_epoch c) (ch_top c) g None 0 false nonce eq_refl Vm Hh Vst Hgi Htb I)
+          by lia.
+        cbn [unrec_of]. unfold sel_pubs. cbn [Z.eqb].
+        eexists. eexists. eexists. split; [reflexivity|]. split; [reflexivity|].
+        apply R_clear. apply (R_mono U n); [lia | exact HR0].
+      * (* whole state *)
+        cbn [mc_ordered cf].
+        rewrite (read_pages_some cf rs0 ch rev_ limit nonce h (ch_epoch c) (ch_top c) (ch_state c) smh
+                   eq_refl eq_refl Vm Hh Htb Vs Vsm Hsmc Hep Hents Hlim).
+        eexists. eexists. eexists. split; [reflexivity|]. split; [reflexivity|].
+        apply R_clear. apply (R_mono U n); [lia | exact HR0].
+  - destruct Hdom as [-> ->]. destruct (none_keys _ _ Hrel) as (Ks & Km & Kt & Ke & Ksm).
+    cbn [String.eqb negb]. unfold mm_read_state. rewrite Ec.
+    destruct (limit =? 0)%Z eqn:El.
+    + rewrite (rm_read_stream_none cf rs0 ch 0 false nonce eq_refl Km) by lia.
+      eexists. eexists. eexists. split; [reflexivity|]. split; [reflexivity|].
+      set (rs1 := setval rs0 (k_meta ch) (VHash [("e", nonce)])).
+      assert (F1 : frame [k_meta ch] rs0 rs1) by apply frame_setval.
+      assert (F2 : frame [k_stream ch] rs1 (delk rs1 (k_stream ch))) by apply frame_delk.
+      assert (F : frame (chan_keys ch) rs0 (clear_outbox (delk rs1 (k_stream ch)))).
+      { eapply frame_trans; [eapply frame_weaken; [|exact F1]; ck|].
+        eapply frame_trans; [eapply frame_weaken; [|exact F2]; ck | apply frame_clear]. }
+      eapply (R_update U n (n + 1) rs0 m _ _ ch _ HK Hin HR0); [lia | exact F | intros ch'; apply sfind_set_chan | |].
+      * apply (chan_rel_frame (delk rs1 (k_stream ch))); [intros; apply getk_clear_outbox|].
+        apply chan_rel_new.
+        -- apply (hview_frame _ _ _ _ _ F2); [notin | apply hview_setval].
+        -- apply getk_delk_same.
+        -- destruct F2 as [F2 _]. destruct F1 as [F1 _]. rewrite F2 by notin. rewrite F1 by notin. exact Kt.
+        -- destruct F2 as [F2 _]. destruct F1 as [F1 _]. rewrite F2 by notin. rewrite F1 by notin. exact Ksm.
+        -- destruct F2 as [F2 _]. destruct F1 as [F1 _]. rewrite F2 by notin. rewrite F1 by notin. exact Ke.
+      * intros c' E. injection E as <-. apply chan_inv_new. assumption.
+    + cbn [mc_ordered cf].
+      rewrite (read_pages_none cf rs0 ch limit nonce eq_refl eq_refl Km Ksm Hlim).
+      eexists. eexists. eexists. split; [reflexivity|]. split; [reflexivity|].
+      set (rs1 := setval rs0 (k_meta ch) (VHash [("e", nonce)])).
+      assert (F1 : frame [k_meta ch] rs0 rs1) by apply frame_setval.
+      assert (F : frame (chan_keys ch) rs0 (clear_outbox rs1)).
+      { eapply frame_trans; [eapply frame_weaken; [|exact F1]; ck | apply frame_clear]. }
+      eapply (R_update U n (n + 1) rs0 m _ _ ch _ HK Hin HR0); [lia | exact F | intros ch'; apply sfind_set_chan | |].
+      * apply (chan_rel_frame rs1); [intros; apply getk_clear_outbox|].
+        destruct F1 as [F1 _].
+        apply chan_rel_new; [apply hview_setval | | | |]; rewrite F1 by notin; assumption.
+      * intros c' E. injection E as <-. apply chan_inv_new. assumption.
+Qed.
+
+(* ================= the whole run ================= *)
+Lemma step_ok U n cf rs m o :
+  cfg_ok cf = true -> keys_ok U -> (forall ch, In ch (op_chan o) -> In ch U) -> R U n rs m ->
+  (Z.of_N n < mc_size cf)%Z -> op_ok m o = true -> step_goal U n cf rs m o.
+Proof.
+  intros Hcf HK Hin HR Hn Hok. destruct o as [ch key po nonce now_|ch key ro nonce now_|ch rev_ limit key asc nr nm|ch since limit reverse nr nm|ch|ms];
+    cbn [op_ok] in Hok; try discriminate Hok.
+  - apply andb_true_iff in Hok as [H1 H2]. apply step_publish; try assumption. apply Hin. left. reflexivity.
+  - apply andb_true_iff in Hok as [H1 H3]. apply andb_true_iff in H1 as [H1 H2].
+    destruct (sfind ch (mm_chans m)) as [c|] eqn:Ec; [|discriminate].
+    apply (step_remove U n cf rs m ch key ro nonce now_ c); try assumption.
+    + apply Hin. left. reflexivity.
+    + apply negb_true_iff in H2. apply String.eqb_neq. exact H2.
+  - apply andb_true_iff in Hok as [H1 H4]. apply andb_true_iff in H1 as [H1 H3]. apply andb_true_iff in H1 as [H1 H2].
+    apply String.eqb_eq in H1. subst nm. apply Z.ltb_lt in H3.
+    apply step_read_state; try assumption.
+    + apply Hin. left. reflexivity.
+    + destruct (sfind ch (mm_chans m)) as [c|]; [exact H4|].
+      apply andb_true_iff in H4 as [A B]. apply String.eqb_eq in A. destruct rev_; [discriminate|]. split; [assumption | reflexivity].
+  - apply andb_true_iff in Hok as [H1 H4]. apply andb_true_iff in H1 as [H1 H3]. apply andb_true_iff in H1 as [H1 H2].
+    apply String.eqb_eq in H1. subst nm. apply Z.ltb_lt in H3.
+    apply step_read_stream; try assumption.
+    + apply Hin. left. reflexivity.
+    + destruct (sfind ch (mm_chans m)) as [c|]; [exact H4|]. destruct since; [discriminate | reflexivity].
+Qed.
+
+Lemma run_agree U cf : cfg_ok cf = true -> keys_ok U -> forall ops n rs m,
+  (forall ch, In ch (chans ops) -> In ch U) -> R U n rs m ->
+  (Z.of_N n + Z.of_nat (List.length ops) <= mc_size cf)%Z -> run_ok cf m ops = true ->
+  rm_run map_shallow cf rs ops = mm_run cf m ops.
+Proof.
+  intros Hcf HK. induction ops as [|o ops IH]; intros n rs m Hin HR Hn Hok; [reflexivity|].
+  cbn [run_ok] in Hok. apply andb_true_iff in Hok as [Ho Hrest].
+  cbn [List.length] in Hn.
+  destruct (step_ok U n cf rs m o Hcf HK) as (rs' & m' & res & Hr & Hm & HR'); try assumption.
+  - intros ch Hc. apply Hin. unfold chans. cbn [flat_map]. apply in_or_app. left. assumption.
+  - lia.
+  - cbn [rm_run mm_run]. rewrite Hr, Hm. f_equal. rewrite Hm in Hrest. cbn [fst] in Hrest.
+    apply (IH (n + 1)%N); try assumption.
+    + intros ch Hc. apply Hin. unfold chans. cbn [flat_map]. apply in_or_app. right. assumption.
+    + lia.
+Qed.
+
+Lemma R_init U : R U 0 rinit mm_init.
+Proof.
+  constructor.
+  - intros ch _. cbn [mm_init mm_chans sfind chan_rel]. intros k _. reflexivity.
+  - intros ch c H. discriminate H.
+Qed.
+
+Theorem agree_core cf ops :
+  cfg_ok cf = true -> keys_okb (chans ops) = true -> (Z.of_nat (List.length ops) <= mc_size cf)%Z ->
+  run_ok cf mm_init ops = true ->
+  rm_run map_shallow cf rinit ops = mem_map_run cf ops.
+Proof.
+  intros Hcf HK Hlen Hok. unfold mem_map_run.
+  apply (run_agree (chans ops) cf Hcf (keys_okb_sound _ HK) ops 0%N); [auto | apply R_init | lia | assumption].
 Qed.
